@@ -364,6 +364,16 @@ def size_leaves(g):
     out += [{"t": "Path", "s": chars(x)} for x in ("ABCD", "\\ABCD", "AB__.CD__", "\\AB__.CD__", "A___.B___.C___", "\\A___.B___.C___")]
     out += [{"t": "BufferData", "d": [7] * n} for n in (0, 1, 2, 54, 55, 56, 57, 58, 59, 60, 61, 62, 63, 64, 255, 256)]
     out += [{"t": "Package", "ch": []}, {"t": "Package", "ch": [{"t": "Zero"}]}, {"t": "ResourceTemplate", "ch": []}]
+    # templates whose content (descriptors + end tag) is exactly 253..258 bytes: the width decision of the buffer size
+    # is the template's own (Memory32Fixed = 12, IO = 8, extended Interrupt = 9 bytes)
+    for dsz in (251, 252, 253, 254, 255, 256):
+        for c in range(4):
+            rem = dsz - 9 * c
+            if rem >= 12 and rem % 4 == 0:
+                a = 1 if rem % 8 == 4 else 0
+                out.append({"t": "ResourceTemplate", "ch": [g.descriptor("Interrupt") for _ in range(c)] + [g.descriptor("Memory32Fixed") for _ in range(a)]
+                            + [g.descriptor("IO") for _ in range((rem - 12 * a) // 8)]})
+                break
     for bits in (1, 62, 63, 64, 4093, 4094, 4095, 4096, (1 << 20) - 4, (1 << 20) - 3, (1 << 20) - 2, (1 << 20) - 1, 1 << 20):
         out.append({"t": "Field", "path": chars("FLD_"), "access": "Any", "lock": "NoLock", "update": "Preserve",
                     "fields": [{"k": "named", "name": chars("F___"), "bits": bits}]})
